@@ -333,8 +333,10 @@ def _copy_root(ba, l, depth=6):
     return l
 
 
-def cheat_pipe_only_for_j0(ctx, rid):
+def cheat_pipe_only_for_j0(ctx, rid, rid2="R8.12"):
     ctx.rule(rid, "JobServer::setup reads the inherited cheat pipe (REDO_CHEATFDS) only on the max_jobs == 0 side: a sub-redo that starts its own jobserver gets its own cheat pipe")
+    if rid2:
+        ctx.rule(rid2, "(F-AG) JobServer::setup: every feasible path to the read of REDO_CHEATFDS passes the point where the parent's token pipe (--jobserver-auth in MAKEFLAGS) is taken over: a cheat pipe belongs to its token pipe")
     prog = ctx.prog
     su = None
     site = []
@@ -347,14 +349,36 @@ def cheat_pipe_only_for_j0(ctx, rid):
                 site.append((b, i))
     if not ctx.floor(rid, "reads of REDO_CHEATFDS", len(site), 1):
         return
+    from core import FAL
     for n, (b, i) in enumerate(site):
         ba = BA.of(b)
-        ok = False
-        for (sw, ne_t, eq_t, x) in common.cmp_const_switches(b, 0):
-            if _copy_root(ba, x) == 1 and ba.edge_dominates((sw, eq_t), i):
-                ok = True
+        j0 = [(sw, eq_t) for (sw, ne_t, eq_t, x) in common.cmp_const_switches(b, 0) if _copy_root(ba, x) == 1]
+        for bb in sorted(ba.live):      # `match max_jobs { 0 => .., 1 => .., _ => .. }`
+            tt = b.blocks[bb]["term"]
+            if tt["t"] == "switch" and re.fullmatch(r"[iu](8|16|32|64|size)", tt["discr_ty"]) and op_local(tt["discr"]) is not None \
+                    and _copy_root(ba, op_local(tt["discr"])) == 1:
+                arms = {v: tg for v, tg in tt["arms"]}
+                if 0 in arms and arms[0] != tt["otherwise"]:
+                    j0.append((bb, arms[0]))
+        direct = any(ba.edge_dominates(e, i) for e in j0)
+        # the blocks on which the parent's token pipe is taken over: `Some((r, w))` built from what parse_makeflags found
+        mk = ba.calls(r"jobserver::parse_makeflags")
+        mk_t = taint(b, seeds={b.blocks[c]["term"]["dest"]["l"] for c in mk}, mode="derived") if mk else set()
+        inherit = []
+        for bb in sorted(ba.live):
+            for st in b.blocks[bb]["stmts"]:
+                if st["s"] == "assign" and st["rv"]["k"] == "agg" and st["rv"].get("variant") == "Some" and \
+                        any(op_local(o) is not None and (op_local(o) in mk_t or any(x in mk_t for x in ba.ref_chain(op_local(o)))) for o in st["rv"]["ops"]):
+                    inherit.append(bb)
+        inh_j0 = bool(inherit) and all(any(ba.edge_dominates(e, bb) for e in j0) for bb in inherit)
+        via_inherit = inh_j0 and FAL.of(b).path([0], [i], avoid=frozenset(inherit), incl=True) is None
+        ok = direct or via_inherit
         ctx.ob(rid, "%s|REDO_CHEATFDS-read#%d|only-when-max_jobs==0" % (b.key, n), ok, where=ctx.where(b, i),
                detail="read under max_jobs == 0" if ok else "the inherited cheat pipe is read whatever -j says: a nested `redo -jN` consumes the outer build's compensation bytes")
+        if rid2:
+            ctx.ob(rid2, "%s|REDO_CHEATFDS-read#%d|only-together-with-the-inherited-token-pipe" % (b.key, n), via_inherit, where=ctx.where(b, i),
+                   detail="the cheat pipe is inherited exactly where the parent's token pipe is" if via_inherit else
+                   "REDO_CHEATFDS is read on a path on which no parent jobserver was found (MAKEFLAGS unset or without --jobserver-auth): the sub-redo starts a jobserver of its own but shares the enclosing build's cheat pipe and eats its compensation bytes")
 
 
 # ------------------------------------------------------------------------------------------------
@@ -1212,6 +1236,27 @@ def lock_file_opened_once(ctx, rid):
     ctx.ob(rid, "lock-file-never-reopened-by-name", not reopen, where=ctx.where(reopen[0][0], reopen[0][1]) if reopen else "",
            detail="no other open takes a path built from the lock file's name" if not reopen else
            "%s opens a path built from the lock file's name %r: when that handle is closed the kernel drops every fcntl lock this process holds on the file - the locks of its running jobs - and another redo can start the same target" % (reopen[0][0].key, reopen[0][2]))
+    # (d) nor is the one descriptor duplicated (seed C07-7: every Lock working on its own try_clone(), closed when the Lock
+    # is dropped - with the same effect as a second open)
+    dups = []
+    from core import rvalue_places as _rvp
+    for b in prog.bodies.values():
+        ba = BA.of(b)
+        for i in ba.calls(r"std::fs::File::try_clone|nix::unistd::dup[23]?|libc::dup[23]?|.*::try_clone_to_owned"):
+            for a in b.blocks[i]["term"]["args"]:
+                l = op_local(a)
+                if l is None:
+                    continue
+                for x in [l] + ba.ref_chain(l, depth=14):
+                    for dd in ba.defs.get(x, []):
+                        if dd[0] != "stmt":
+                            continue
+                        for pl in _rvp(dd[3]):
+                            if pl is not None and any(isinstance(e, str) and e.startswith("f:state::LockManager.") for e in pl["p"]):
+                                dups.append((b, i))
+    ctx.ob(rid, "lock-file-descriptor-never-duplicated", not dups, where=ctx.where(dups[0][0], dups[0][1]) if dups else "",
+           detail="the LockManager's descriptor is the only one" if not dups else
+           "%s duplicates the lock file's descriptor: closing the duplicate drops every fcntl lock this process holds on the file - the locks of its other running jobs - and a sibling request starts the same target a second time" % dups[0][0].key)
     # the path handed to LockManager::open is used for nothing else in init
     if lo:
         src = op_local(I.blocks[lo[0]]["term"]["args"][0])
@@ -1521,6 +1566,293 @@ def tmp_removal_copes_with_directory(ctx, rid):
     ctx.floor(rid, "temp-output removal sites examined", n, 2)
 
 
+# ------------------------------------------------------------------------------------------------
+# R9.11 (F-AE)  a blocking read that relies on an alarm to get unstuck must be interruptible by it
+
+_SIG_INSTALL = re.compile(r"nix::sys::signal::(signal|sigaction)|libc::(signal|sigaction)")
+_TIMER_ARM = re.compile(r"helpers::set_interval_timer|libc::(setitimer|alarm)|nix::unistd::alarm::set|nix::sys::timer::.*")
+
+
+def alarm_interrupts_blocking_read(ctx, rid):
+    ctx.rule(rid, "the token read that another process may win (select says readable, then a blocking read) is guarded by an interval timer; the SIGALRM handler must be installed with sigaction() and without SA_RESTART - signal() implies SA_RESTART, the kernel then restarts the read after every alarm, the loser of the race sits in read() for ever and can neither reap its jobs nor give their tokens back")
+    from rules.C06 import backward_direct
+    prog = ctx.prog
+    n = 0
+    for b in prog.bodies.values():
+        if not b.key.startswith("jobserver::"):
+            continue
+        ba = BA.of(b)
+        reads = ba.calls(r"nix::unistd::read|libc::read")
+        arms = ba.calls(_TIMER_ARM)
+        for r in reads:
+            before = [a for a in arms if ba.path([a], [r], incl=True) is not None]
+            if not before:
+                continue
+            n += 1
+            inst = [i for i in ba.calls(_SIG_INSTALL) if ba.path([i], [r], incl=True) is not None]
+            if not inst:
+                raise AnchorError("%s: %s arms a timer before a blocking read but the handler installation was not found in the same body" % (rid, b.key))
+            for k, i in enumerate(inst):
+                t = b.blocks[i]["term"]
+                name = common.short(callee_paths(t)[0])
+                if name.endswith("::signal"):
+                    ok, det = False, "the handler is installed with signal(): SA_RESTART semantics, the alarm cannot interrupt the read()"
+                else:
+                    sl, org, _ = backward_direct(b, op_local(t["args"][1]), depth=60)
+                    news = [o for o in org if o[0] == "call" and call_matches(o[2], r"nix::sys::signal::SigAction::new")]
+                    ok, det = False, "the sigaction operand is not built by SigAction::new in this body"
+                    if news:
+                        fl = op_local(news[0][2]["args"][1])
+                        sl2, org2, _ = backward_direct(b, fl, depth=60) if fl is not None else (set(), [], None)
+                        empties = [o for o in org2 if o[0] == "call" and call_matches(o[2], r"nix::sys::signal::SaFlags::empty")]
+                        restart = any("SA_RESTART" in json_text(o) for o in org2) or any(o[0] == "call" and call_matches(o[2], r"nix::sys::signal::SaFlags::all") for o in org2) or \
+                            "SA_RESTART" in json_text(news[0][2]["args"][1])
+                        ok = not restart and (bool(empties) or bool(org2) or op_const(news[0][2]["args"][1]) is not None)
+                        det = "installed with sigaction(), flags without SA_RESTART: the alarm makes the read() return EINTR" if ok else "the sigaction flags contain SA_RESTART (or cannot be traced): the kernel restarts the read() after every alarm"
+                ctx.ob(rid, "%s|read#%d|handler#%d|alarm-interrupts-the-read" % (b.key, reads.index(r), k), ok, where=ctx.where(b, i), detail=det)
+    ctx.floor(rid, "alarm-guarded blocking reads in the jobserver", n, 1)
+
+
+def json_text(o):
+    import json as _j
+    try:
+        return _j.dumps(o, default=str)
+    except Exception:
+        return str(o)
+
+
+# ------------------------------------------------------------------------------------------------
+# R1.14 / R3.13 (F-AF)  "redo-stamp ran during this build" must be recognised by something only redo-stamp does
+
+def stamped_mark_is_build_specific(ctx, rid):
+    ctx.rule(rid, "record_new_state only refreshes the stamp (no set_changed) when it believes redo-stamp ran during this build; the record fields that belief is read from must be written by redo-stamp alone - a mark that the per-run dirtiness memo or an earlier build of the same run also sets makes a forced rebuild of an already-checked target invisible to its dependents, for good")
+    from core import rvalue_places, place_fields
+    prog = ctx.prog
+    R = anchors.record_new_state(prog)
+    rba = BA.of(R)
+    rs = rba.calls(r"state::File::read_stamp")
+    us = rba.calls(r"state::File::update_stamp")
+    if not rs or not us:
+        raise AnchorError("%s: stamp refresh branches of %s not located" % (rid, R.key))
+    preds = [(sw, t_t, f_t, cbb) for (sw, t_t, f_t, cbb) in rba.switches_on_call(r"state::File::\w+")
+             if rba.dominates(sw, rs[0]) and rba.path([t_t], [rs[0]], avoid=frozenset(us), incl=True) is not None
+             and rba.path([t_t], us, avoid=frozenset(rs), incl=True) is None]
+    fields = {}
+    for (sw, t_t, f_t, cbb) in preds:
+        for q in callee_paths(R.blocks[cbb]["term"]):
+            pb = prog.bodies.get(q)
+            if pb is None:
+                continue
+            for blk in pb.blocks:
+                for st in blk["stmts"]:
+                    if st["s"] != "assign":
+                        continue
+                    for pl in rvalue_places(st["rv"]):
+                        for f in place_fields(pl):
+                            if f.startswith("state::File."):
+                                fields.setdefault(f, cbb)
+    ctx.floor(rid, "record fields the stamped-build test reads", len(fields), 1)
+    entries = sorted(k for k in prog.bodies if re.fullmatch(r"@bin::\w+::run", k) or k in ("@bin::run_redo",))
+    stamp_entry = [k for k in entries if k.startswith("@bin::stamp::")]
+    others = [k for k in entries if k not in stamp_entry]
+    reach_other = ctx.cg.reachable(others, indirect=True)
+    bad = []
+    for f in sorted(fields):
+        for k, b in sorted(prog.bodies.items()):
+            if k == R.key or b.kind.lower() not in ("fn", "method", "assocfn", "closure"):
+                pass
+            ws = field_writes(b, re.escape(f))
+            if not ws or k == R.key:
+                continue
+            # constructors / row loaders assign every field: only writers that store the current run id count
+            runid_t = taint(b, src_place=lambda p_: any(x.endswith("Env.runid") or x.endswith(".runid") for x in place_fields(p_)), mode="derived")
+            stores_runid = False
+            for (bb_, j_, st_) in ws:
+                for pl in rvalue_places(st_["rv"]):
+                    if pl["l"] in runid_t or any(x.endswith(".runid") for x in place_fields(pl)):
+                        stores_runid = True
+            if stores_runid and k in reach_other:
+                bad.append((f, k))
+    key = "%s|stamped-build-recognised-by-run-wide-marks" % R.key
+    ctx.ob(rid, key, not bad, where=ctx.where(R, preds[0][0]) if preds else R.span,
+           detail="the marks are written by redo-stamp only" if not bad else
+           "the test reads %s, which %s" % (", ".join(sorted({f.split('.')[-1] for f, _ in bad})),
+                                            "; ".join("%s also sets outside redo-stamp" % common.short(k) for k in sorted({k for _, k in bad}))))
+
+
+# ------------------------------------------------------------------------------------------------
+# R17.9 (F-AI)  a listing command does not create the state directory
+
+_EXIST_Q = re.compile(r"std::path::Path::(exists|is_file|is_dir|try_exists|metadata|symlink_metadata)|std::fs::(metadata|symlink_metadata)")
+
+
+def _asks_whether_state_exists(prog, b, ba, cbb, depth=2):
+    """Is the bool-valued call at block cbb a question about the existence of something below Env::base()?"""
+    t = b.blocks[cbb]["term"]
+    ps = callee_paths(t)
+    base_t = taint(b, src_call=lambda t_: call_matches(t_, r"env::Env::base"), mode="derived")
+    if any(_EXIST_Q.fullmatch(q) for q in ps):
+        a0 = op_local(t["args"][0]) if t.get("args") else None
+        return a0 is not None and (a0 in base_t or any(x in base_t for x in ba.ref_chain(a0)))
+    for q in ps:
+        cb = prog.bodies.get(q)
+        if cb is None or depth <= 0:
+            continue
+        cba = BA.of(cb)
+        for i in cba.all_calls():
+            tt = cb.blocks[i]["term"]
+            if any(_EXIST_Q.fullmatch(x) for x in callee_paths(tt)):
+                bt = taint(cb, src_call=lambda t_: call_matches(t_, r"env::Env::base"), mode="derived")
+                a0 = op_local(tt["args"][0]) if tt.get("args") else None
+                if a0 is not None and (a0 in bt or any(x in bt for x in cba.ref_chain(a0))):
+                    return True
+    return False
+
+
+def listing_never_creates_state(ctx, rid):
+    ctx.rule(rid, "redo-ood / redo-targets / redo-sources open the project state (ProcessState::init creates <base>/.redo and its database when they are missing) only after finding that a state database already exists: a listing typed in a sub-directory of a project without .redo must not plant one there, where later commands started in that directory would find it instead of the project's")
+    prog = ctx.prog
+    n = 0
+    for q in (r"@bin::ood::run", r"@bin::targets::run", r"@bin::sources::run"):
+        b = prog.one(q)
+        ba = BA.of(b)
+        inits = ba.calls(r"state::ProcessState::init")
+        if not inits:
+            raise AnchorError("%s: no ProcessState::init in %s" % (rid, b.key))
+        for i in inits:
+            n += 1
+            ok = False
+            for (sw, t_t, f_t, cbb) in ba.switches_on_call(r".*"):
+                if ba.edge_dominates((sw, t_t), i) and t_t != f_t and _asks_whether_state_exists(prog, b, ba, cbb):
+                    ok = True
+            ctx.ob(rid, "%s|state-opened-only-if-it-exists" % b.key, ok, where=ctx.where(b, i),
+                   detail="ProcessState::init is reached only on the exists-side of a test of the state database" if ok else
+                   "the listing command creates .redo (and a database) in whatever directory it takes for the project base")
+    ctx.floor(rid, "listing commands examined", n, 3)
+
+
+# ------------------------------------------------------------------------------------------------
+# R5.17 / R1.15  what File::set_failed must record, on every path
+
+def set_failed_records_file_as_it_is(ctx, rid):
+    ctx.rule(rid, "File::set_failed, on every path: (a) refreshes the recorded stamp from the file as the failed script left it (update_stamp / read_stamp) - with the stamp of the last good build the next run's manual-override test takes redo's own half-written output for a user edit, prints `you modified it; skipping` and exits 0 without ever retrying; (b) assigns is_generated from whether the file exists (true when it does) - left unset, a first build that failed after writing its output is a static source next run and is never retried")
+    prog = ctx.prog
+    sf = prog.one(r"state::File::set_failed")
+    ba = BA.of(sf)
+    rets = common.ok_returns(sf) or ba.returns()
+    refresh = set(ba.calls(r"state::File::update_stamp"))
+    rs = ba.calls(r"state::File::read_stamp")
+    rs_t = taint(sf, seeds={sf.blocks[c]["term"]["dest"]["l"] for c in rs}, mode="derived") if rs else set()
+    for (bb, j, st) in field_writes(sf, r"state::File\.stamp"):
+        from core import rvalue_places
+        if any(pl["l"] in rs_t for pl in rvalue_places(st["rv"])):
+            refresh.add(bb)
+    common.mpt_fl(ctx, rid, "%s|stamp-refreshed-on-every-path" % sf.key, sf, [0], rets, sorted(refresh),
+                  "the recorded stamp is that of the file as the failed build left it", "a failed build can keep the stamp of the last good build: its own leftover is then taken for a manual edit and the target is never retried")
+    gw = field_writes(sf, r"state::File\.is_generated")
+    gblocks = sorted({bb for (bb, j, st) in gw})
+    common.mpt_fl(ctx, rid, "%s|is_generated-assigned-on-every-path" % sf.key, sf, [0], rets, gblocks,
+                  "is_generated is decided on every path", "a failed build can leave is_generated as it was: a target whose first build failed after writing its file is a source next run and is never retried")
+    nonconst = [st for (bb, j, st) in gw if not (st["rv"]["k"] == "use" and (op_const(st["rv"]["op"]) or {}).get("bool") is False)]
+    ctx.ob(rid, "%s|is_generated-can-become-true" % sf.key, bool(nonconst), where=sf.span,
+           detail="is_generated follows the existence of the file" if nonconst else "set_failed only ever clears is_generated")
+
+
+# ------------------------------------------------------------------------------------------------
+# R14.8 / R2.10  add_dep stores the declared mode, whatever was recorded before
+
+def add_dep_replaces_unconditionally(ctx, rid):
+    ctx.rule(rid, "File::add_dep writes the mode it was given (direct flow from the parameter into the statement's parameters) and reads no existing Deps row: last build's row (still present, marked for deletion) must not decide the mode of this build's edge - an `m` edge kept for a file that no longer exists makes the target dirty in every run")
+    prog = ctx.prog
+    ad = prog.one(r"state::File::add_dep")
+    ba = BA.of(ad)
+    reads = ba.calls(r"rusqlite::Connection::(query_row|prepare|prepare_cached|query_row_and_then)|rusqlite::Statement::.*|rusqlite::(statement::)?Statement(<.*>)?::(query|query_map|query_row|exists)")
+    # reading the *source's* record (File::from_name) is how the edge's other end is found; a direct query in add_dep is a look at Deps
+    ctx.ob(rid, "%s|reads-no-existing-edge" % ad.key, not reads, where=ctx.where(ad, reads[0]) if reads else ad.span,
+           detail="add_dep issues no query of its own" if not reads else "add_dep looks at an existing row before writing: what it finds there (possibly last build's edge) can override the declared mode")
+    modes = [p_ for p_ in range(1, ad.arg_count + 1) if "DepMode" in ad.locals[p_]]
+    ws = ba.calls(r"state::ProcessTransaction::write")
+    if not modes or not ws:
+        raise AnchorError("%s: mode parameter / write statement of %s not located" % (rid, ad.key))
+    mt = taint(ad, seeds=set(modes), mode="direct")
+    okw = []
+    for w in ws:
+        t = ad.blocks[w]["term"]
+        hit = any(op_local(a) is not None and (op_local(a) in mt or any(x in mt for x in ba.ref_chain(op_local(a), depth=14))) for a in t["args"])
+        okw.append(hit)
+    ctx.ob(rid, "%s|stored-mode-is-the-declared-mode" % ad.key, all(okw), where=ctx.where(ad, ws[0]),
+           detail="the mode parameter itself is what the insert stores" if all(okw) else "the stored mode is not the parameter itself (computed from something else, e.g. the row of an earlier build)")
+
+
+# ------------------------------------------------------------------------------------------------
+# R5.18 / R4.12 / R10.15  a failure decided anywhere in record_new_state is recorded as one
+
+def every_failure_is_recorded(ctx, rid):
+    ctx.rule(rid, "record_new_state: from every point where the job's status becomes a failure (the script's own status, 206, 207, and the errors of the install steps inside the success region: copy, rename, refresh, stamp) every feasible path to the save of the record passes File::set_failed and the removal of the temp output - a failure that is only reported (exit status of this run) but saved as a good build is not retried by the next run")
+    prog = ctx.prog
+    R = anchors.record_new_state(prog)
+    rba = BA.of(R)
+    fails = rba.calls(r"state::File::set_failed")
+    saves = rba.calls(r"state::File::save")
+    if not fails or not saves:
+        raise AnchorError("%s: set_failed / save of %s not located" % (rid, R.key))
+    eqs = common.cmp_const_switches(R, 0)
+    rvl = None
+    for (_, _, _, x) in eqs:
+        rvl = x
+    if rvl is None:
+        raise AnchorError("%s: status variable of %s not located" % (rid, R.key))
+    fam = common.status_family(R, common.int_root(R, rvl))
+    fb = common.status_failure_blocks(R, fam, 0)
+    # failures decided while recording the failure itself (set_failed / save went wrong) come after the fact
+    rec_steps = fails + saves + rba.calls(r"state::File::zap_deps2")
+    fb = {a: cs for a, cs in fb.items() if not any(rba.dominates(c_, a) for c_ in rec_steps)}
+    ctx.floor(rid, "failure assignments ahead of the recording step", len(fb), 3)
+    unl = rba.calls_deep(r"helpers::unlink|nix::unistd::unlink|std::fs::remove_file", prog)
+    tmp_roles = None
+    for n_, a in enumerate(sorted(fb)):
+        pth = common.status_path_avoiding(R, fam, 0, a, saves, avoid=fails)
+        ctx.ob(rid, "%s|status:=%s#%d|set_failed-before-save" % (R.key, "+".join(sorted(str(c_) for c_ in fb[a])), n_), pth is None, where=ctx.where(R, a),
+               detail="the failure is marked on the record before it is saved" if pth is None else
+               "a failure decided at %s reaches the save at %s without set_failed: the record says the build succeeded" % (R.line(a), R.line(pth[-1])), witness=pth)
+
+
+# ------------------------------------------------------------------------------------------------
+# R10.14 / R16.10  the schema is created inside the transaction that also writes the version row
+
+def schema_created_inside_transaction(ctx, rid):
+    ctx.rule(rid, "ProcessState::init executes every schema statement (create table ..) through the start-up Transaction, never on the bare connection: outside a transaction each statement commits on its own, and a first invocation killed between two of them leaves tables without a Schema row - neither `no tables yet` nor a database of a known version - so every later command fails until .redo is deleted by hand")
+    from rules.C06 import backward_direct
+    prog = ctx.prog
+    I = prog.one(r"state::ProcessState::init")
+    ba = BA.of(I)
+    n = 0
+    for c in ba.calls(r"rusqlite::Connection::(execute|execute_batch)"):
+        t = I.blocks[c]["term"]
+        ddl = False
+        for a in t["args"][1:]:
+            txt = const_str(a)
+            la = op_local(a)
+            if txt is None and la is not None:
+                sl, org, _ = backward_direct(I, la, depth=12)
+                for x in [la] + sorted(sl):
+                    d = ba.single_def(x)
+                    if d and d[0] == "stmt" and d[3]["k"] == "use" and const_str(d[3]["op"]):
+                        txt = const_str(d[3]["op"])
+                        break
+            if txt and re.search(r"\bcreate\s+table\b", txt, re.I):
+                ddl = True
+        if not ddl:
+            continue
+        n += 1
+        sl, org, _ = backward_direct(I, op_local(t["args"][0]), depth=12)
+        via_tx = bool(org) and all(o[0] == "call" and any(re.search(r"Connection>?::(transaction|transaction_with_behavior|unchecked_transaction)$", q) or
+                                                         ("rusqlite::transaction::Transaction" in q and q.endswith("::deref")) for q in callee_paths(o[2])) for o in org)
+        ctx.ob(rid, "%s|ddl#%d|runs-inside-the-start-up-transaction" % (I.key, n), via_tx, where=ctx.where(I, c),
+               detail="executed through the Transaction" if via_tx else "a schema statement is executed on the connection itself: it commits on its own, ahead of the version row")
+    ctx.floor(rid, "schema statements in init", n, 1)
+
+
 _BORROW_CACHE = {}
 
 
@@ -1562,46 +1894,50 @@ def memo_after_failed_test(ctx, rid):
 # ------------------------------------------------------------------------------------------------
 
 TABLE = {
-    "C02": [("R2.7", every_candidate_leaves_an_edge),
+    "C02": [("R2.7", every_candidate_leaves_an_edge), ("R2.10", add_dep_replaces_unconditionally),
             ("R2.8", borrow("C03", "R3.2", None, "a build wrongly taken for a stamped one never advances changed_runid: the target and its dependents then re-run on every later redo-ifchange"))],
     "C13": [("R13.6", every_candidate_leaves_an_edge), ("R13.7", check_never_refreshes_stamps),
             ("R13.8", borrow("C02", "R2.3", r"^(add_dep\||sql-literals-found)", "a must-not-exist edge for a higher-priority .do candidate has to replace last build's row (and clear its deletion mark), or it is swept after the second build and a new candidate is never noticed"))],
-    "C03": [("R3.12", memo_after_failed_test), ("R3.9", signal_death_is_failure), ("R3.10", uncertain_is_not_built_directly), ("R3.11", stamp_reads_to_eof)],
+    "C03": [("R3.12", memo_after_failed_test), ("R3.13", stamped_mark_is_build_specific), ("R3.9", signal_death_is_failure), ("R3.10", uncertain_is_not_built_directly), ("R3.11", stamp_reads_to_eof)],
     "C05": [("R5.8", signal_death_is_failure),
             ("R5.9", borrow("C01", "R1.3", None, "the edge to a requested target must exist even when that target then fails, or the caller is not dirty next run and the failed target is never retried")),
             ("R5.10", memo_after_failed_test), ("R5.12", callback_error_keeps_cause), ("R5.13", flags_exported_only_when_set),
             ("R5.11", decision_sees_finished_jobs),
             ("R5.14", borrow("C13", "R13.3", r"argv\[0\.\.2\]", "scripts run under `sh -e`: a failing redo-ifchange inside a .do stops the script and fails the target")),
-            ("R5.15", failed_marker_not_cleared_at_start)],
+            ("R5.15", failed_marker_not_cleared_at_start), ("R5.17", set_failed_records_file_as_it_is), ("R5.18", every_failure_is_recorded)],
     "C04": [("R4.6", output_probed_with_lstat), ("R4.7", direct_modification_is_inequality), ("R4.8", stdout_amount_from_fstat),
             ("R4.9", borrow("C13", "R13.3", r"^[^|]*\|\$3=", "two targets that differ only in the matched extension must not share one temp output file: the second script's output would replace or destroy the first's")),
-            ("R4.11", tmp_removal_copes_with_directory)],
+            ("R4.11", tmp_removal_copes_with_directory), ("R4.12", every_failure_is_recorded)],
     "C11": [("R11.8", direct_modification_is_inequality), ("R11.11", foreign_file_not_recorded_as_ours),
             ("R11.9", borrow("C15", "R15.2", None, "the record consulted for `generated / override` must be the one of the file the kernel will resolve: a spelling cleaned before symlinks are resolved selects another record and a user's file is replaced"))],
     "C06": [("R6.9", verdict_only_under_lock), ("R6.10", lock_file_opened_once),
+            ("R6.12", borrow("C15", "R15.2", None, "the lock id is the id of the record a spelling maps to: a relpath that skips symlink resolution (a lexical fast path) gives one file reached through a symlinked directory two records and two lock bytes, and two commands run its .do at the same time")),
             ("R6.11", borrow("C15", "R15.9", None, "the lock id is the id of the record the name maps to: a directory spelling that is not resolved (a lexical shortcut, or a directory that does not exist yet) gives the same file a second record and a second lock, and two commands run its .do at the same time"))],
     "C07": [("R7.5", verdict_only_under_lock), ("R7.8", lock_file_opened_once),
+            ("R7.10", borrow("C15", "R15.2", None, "two spellings of one target are folded by record: a relpath that skips symlink resolution gives the file a second record, and one run builds it twice")),
             ("R7.9", borrow("C15", "R15.9", None, "two spellings of one target on a command line (or from two dependents) are folded by record id: a spelling whose directory is not resolved gets a record of its own and the target is built twice in the run")),
             ("R7.6", borrow("C02", "R2.3", r"marked-edges-still-listed", "while a target is being rebuilt its marked edges are the only record of why it is dirty: a dependent evaluated by a parallel job must still see them")),
             ("R7.7", borrow("C13", "R13.3", r"^[^|]*\|\$3=", "two targets of one default.*.do that differ only in the matched extension must not share a temp output name when built in parallel"))],
     "C08": [("R8.10", cheat_pipe_only_for_j0)],
-    "C01": [("R1.9", check_never_refreshes_stamps),
+    "C01": [("R1.9", check_never_refreshes_stamps), ("R1.14", stamped_mark_is_build_specific), ("R1.15", set_failed_records_file_as_it_is),
+            ("R1.16", every_candidate_leaves_an_edge),
             ("R1.11", borrow("C15", "R15.2", None, "the builder records the new stamp on the record the requested spelling maps to, the .do's own redo-ifchange records its source edges on the record of $REDO_PWD/$REDO_TARGET: unless both spellings are resolved to one record the stamped record never sees a source change and redo-ifchange exits 0 with the target stale")),
             ("R1.12", borrow("C02", "R2.2", None, "the edges of the previous build are deleted only when the new result is recorded (second phase): deleted up front, a build killed before its .do re-declares them leaves a target with no reason to be dirty")),
             ("R1.13", borrow("C02", "R2.1", None, "first phase: old edges are only marked before the .do search and the fork")),
             ("R1.10", borrow("C02", "R2.3", r"marked-edges-still-listed", "after an interrupted rebuild the marked edges are the only reason the target is dirty"))],
-    "C14": [("R14.7", borrow("C02", "R2.3", r"^(add_dep\||sql-literals-found)", "a re-declared ifcreate edge must replace last build's row and clear its deletion mark")),
+    "C14": [("R14.8", add_dep_replaces_unconditionally),
+            ("R14.7", borrow("C02", "R2.3", r"^(add_dep\||sql-literals-found)", "a re-declared ifcreate edge must replace last build's row and clear its deletion mark")),
             ("R14.6", borrow("C02", "R2.3", r"marked-edges-still-listed", "an ifcreate / always edge of an interrupted rebuild must still make the target dirty"))],
-    "C09": [("R9.10", probe_forks_while_owning),
+    "C09": [("R9.10", probe_forks_while_owning), ("R9.11", alarm_interrupts_blocking_read),
             ("R9.8", borrow("C12", "R12.2", None, "a lock id that is not registered turns a cycle into an endless fcntl wait")),
             ("R9.9", borrow("C08", "R8.1", None, "a counter written outside the accounting functions breaks the top-level self-test: an all-success build exits 1"))],
-    "C17": [("R17.6", ood_lists_every_nonclean), ("R17.7", check_never_refreshes_stamps)],
+    "C17": [("R17.6", ood_lists_every_nonclean), ("R17.7", check_never_refreshes_stamps), ("R17.9", listing_never_creates_state)],
     "C18": [("R18.7", done_status_type_agrees), ("R18.8", seen_only_when_shown), ("R18.9", record_after_partial_line),
             ("R18.10", record_names_relative_to_target_dir), ("R18.11", non_record_line_echoed_whole),
             ("R18.12", follower_reads_after_probe), ("R18.13", parse_keeps_text_verbatim), ("R18.14", record_content_never_panics)],
     "C15": [("R15.7", key_never_bypasses_relpath), ("R15.8", relpath_is_componentwise)],
     "C10": [("R10.12", borrow("C04", "R4.4", r"tmp-name|same-tmp", "the stale-output removal before the fork must name the same file the script will be told to write ($3, beside the target): removing another path leaves the half-written output of a killed build in place, to be taken for this build's output")),
-            ("R10.8", rename_inside_result_transaction), ("R10.13", tmp_removal_copes_with_directory), ("R10.10", interrupted_creation_is_recoverable), ("R10.11", failed_marker_not_cleared_at_start),
+            ("R10.8", rename_inside_result_transaction), ("R10.14", schema_created_inside_transaction), ("R10.13", tmp_removal_copes_with_directory), ("R10.10", interrupted_creation_is_recoverable), ("R10.11", failed_marker_not_cleared_at_start),
             ("R10.9", borrow("C05", "R5.3", None, "a job that dies (non-zero or by signal) has its un-redeclared edges deleted by zap_deps2, so it must be marked failed in the same transaction or it looks clean after the kill"))],
     "C12": [("R12.9", every_modified_dep_is_descended), ("R12.10", only_immediate_exit_becomes_job_result),
             ("R12.11", borrow("C13", "R13.3", r"argv\[0\.\.2\]", "a .do on the cycle must stop at the failing redo-ifchange (`sh -e`), or the entry target exits 0 although the cycle was detected below"))],
